@@ -1,6 +1,7 @@
 """C26 - each received PING is answered exactly once with the same payload."""
 from .base import Monitor
 from .. import codec as C
+from .. import twins
 
 
 class C26(Monitor):
@@ -26,7 +27,16 @@ class C26(Monitor):
                     self.fail('valid-ping-refused', 'ping() with an 8-byte payload raised %s' % s.exc['type'], s)
             return
         if not s.ok:
+            # a chunk of nothing but well-formed PING frames on a live connection cannot be in error
+            if (s.units and not s.snap['closed'] and not s.quirk and s.trailing == 0 and not w.eps[s.ep].in_tap.preface_bad
+                    and len(s.in_frames) == len(s.units)
+                    and all(f.type == C.PING and f.bad is None and f.length <= 16384 for f in s.units)):
+                self.probe('ping_only_chunk_raised')
+                self.fail('ping-rejected', 'a chunk of %s well-formed PING frames raised %s' % (
+                    'more than 64' if len(s.units) > 64 else 'some', s.exc['type']), s, frames=len(s.units))
             return
+        if len([f for f in s.units if f.type == C.PING]) > 64:
+            self.probe('ping_flood_chunk')
         want_ev = []
         want_ack = []
         for f in s.units:
@@ -51,3 +61,25 @@ class C26(Monitor):
             self.fail('ping-events', 'ping events differ from delivered PING frames', s, got=got_ev, want=want_ev)
         if got_ack != want_ack:
             self.fail('ping-acks', 'PING ACK frames differ from delivered PINGs', s, got=got_ack, want=want_ack)
+
+    def finish(self, w):
+        if self.violations:
+            return
+        # 'appends': acknowledgements go behind whatever is still waiting to be read.  Lazy-read twin: the same
+        # log with output taken in arbitrary partial reads must give the same byte stream (a received GOAWAY
+        # discards pending output, so only logs without one are compared)
+        for ep in ('c', 's'):
+            e = w.eps[ep]
+            if not any(f.type == C.PING for s in e.log if s.kind == 'recv' for f in s.in_frames):
+                continue
+            if any(f.type == C.GOAWAY for s in e.log if s.kind == 'recv' for f in s.in_frames) or \
+                    any(s.kind == 'call' and s.op == 'clear_outbound_data_buffer' for s in e.log):
+                continue
+            lazy, bad = twins.run_lazy(w, ep, twins.twin_rng(w, ep, 'lazy-ping'))
+            whole = b''.join(s.out for s in e.log)
+            self.probe('lazy_read_twin')
+            if bad or lazy != whole:
+                self.fail('ack-not-appended', 'with output read lazily the byte stream (PING ACK placement) differs', None,
+                          endpoint=ep, same_length=len(lazy) == len(whole),
+                          first_difference=next((i for i, (x, y) in enumerate(zip(lazy, whole)) if x != y), min(len(lazy), len(whole))))
+                return
